@@ -3,6 +3,8 @@
 open Vx
 open C17Spec
 open C17Model
+open C17TypedModel
+open Base
 
 let parse_msg (s : string) : msg =
   match split_on ':' s with
@@ -23,9 +25,160 @@ let xres_string (r : xres) : string * string =
   | XErr -> ("err", "-")
   | XFuel -> ("fuel", "-")
 
+(* ---------------------------------------------------------------- typed messages *)
+let bool_of s = (s = "1")
+let b01 b = if b then "1" else "0"
+
+let parse_clock (s : string) : clock =
+  match split_on ',' s with
+  | [f; u; ct; full; disc; dr; nf; sf; sec; mf; mi; hf; h; tl; tv] ->
+    { c_flag = bool_of f; c_units = bool_of u; c_counting = n_of_hex ct; c_full = bool_of full;
+      c_disc = bool_of disc; c_dropped = bool_of dr; c_nframes = n_of_hex nf;
+      c_secflag = bool_of sf; c_seconds = n_of_hex sec; c_minflag = bool_of mf; c_minutes = n_of_hex mi;
+      c_hrflag = bool_of hf; c_hours = n_of_hex h; c_tolen = n_of_hex tl; c_toval = n_of_hex tv }
+  | _ -> failwith ("bad clock " ^ s)
+
+let clock_string (c : clock) : string =
+  S.concat "," [b01 c.c_flag; b01 c.c_units; hex_of_n c.c_counting; b01 c.c_full; b01 c.c_disc; b01 c.c_dropped;
+                hex_of_n c.c_nframes; b01 c.c_secflag; hex_of_n c.c_seconds; b01 c.c_minflag; hex_of_n c.c_minutes;
+                b01 c.c_hrflag; hex_of_n c.c_hours; hex_of_n c.c_tolen; hex_of_n c.c_toval]
+
+let parse_clocks s = if s = "-" then [] else L.map parse_clock (split_on '|' s)
+let clocks_string l = match l with [] -> "-" | _ -> S.concat "|" (L.map clock_string l)
+
+let parse_clock_avc (s : string) : clock_avc =
+  match split_on ',' s with
+  | [f; ctt; nu; ct; full; disc; dr; nf; sf; sec; mf; mi; hf; h; tl; tv] ->
+    { a_flag = bool_of f; a_cttype = n_of_hex ctt; a_nuit = bool_of nu; a_counting = n_of_hex ct;
+      a_full = bool_of full; a_disc = bool_of disc; a_dropped = bool_of dr; a_nframes = n_of_hex nf;
+      a_secflag = bool_of sf; a_seconds = n_of_hex sec; a_minflag = bool_of mf; a_minutes = n_of_hex mi;
+      a_hrflag = bool_of hf; a_hours = n_of_hex h; a_tolen = n_of_hex tl; a_toval = z_of_hex tv }
+  | _ -> failwith ("bad avc clock " ^ s)
+
+let clock_avc_string (c : clock_avc) : string =
+  S.concat "," [b01 c.a_flag; hex_of_n c.a_cttype; b01 c.a_nuit; hex_of_n c.a_counting; b01 c.a_full; b01 c.a_disc;
+                b01 c.a_dropped; hex_of_n c.a_nframes; b01 c.a_secflag; hex_of_n c.a_seconds; b01 c.a_minflag;
+                hex_of_n c.a_minutes; b01 c.a_hrflag; hex_of_n c.a_hours; hex_of_n c.a_tolen; hex_of_z c.a_toval]
+
+let parse_hrd (s : string) : hrd_delay option =
+  if s = "-" then None else
+    match split_on ',' s with
+    | [a; b; c; d; e] -> Some { h_cpb_delay = n_of_hex a; h_dpb_delay = n_of_hex b; h_init_len1 = n_of_hex c;
+                                h_cpb_len1 = n_of_hex d; h_dpb_len1 = n_of_hex e }
+    | _ -> failwith ("bad hrd " ^ s)
+
+let hrd_string (h : hrd_delay option) : string =
+  match h with
+  | None -> "-"
+  | Some h -> S.concat "," [hex_of_n h.h_cpb_delay; hex_of_n h.h_dpb_delay; hex_of_n h.h_init_len1;
+                            hex_of_n h.h_cpb_len1; hex_of_n h.h_dpb_len1]
+
+let parse_pt (s : string) : pic_timing =
+  match split_on ';' s with
+  | [h; tl; pict; cs] ->
+    { p_hrd = parse_hrd h; p_tolen = n_of_hex tl; p_pict = n_of_hex pict;
+      p_clocks = (if cs = "-" then [] else L.map parse_clock_avc (split_on '|' cs)) }
+  | _ -> failwith ("bad pic timing " ^ s)
+
+let pt_string (m : pic_timing) : string =
+  hrd_string m.p_hrd ^ ";" ^ hex_of_n m.p_tolen ^ ";" ^ hex_of_n m.p_pict ^ ";" ^
+  (match m.p_clocks with [] -> "-" | l -> S.concat "|" (L.map clock_avc_string l))
+
+let parse_mdcv (s : string) : mdcv =
+  match L.map n_of_hex (split_on ',' s) with
+  | [a; b; c; d; e; f; g; h; i; j] ->
+    { md_x0 = a; md_y0 = b; md_x1 = c; md_y1 = d; md_x2 = e; md_y2 = f; md_wx = g; md_wy = h; md_max = i; md_min = j }
+  | _ -> failwith ("bad mdcv " ^ s)
+
+let mdcv_string (m : mdcv) : string =
+  S.concat "," (L.map hex_of_n [m.md_x0; m.md_y0; m.md_x1; m.md_y1; m.md_x2; m.md_y2; m.md_wx; m.md_wy; m.md_max; m.md_min])
+
+let res_string (f : 'a -> string) (r : 'a res) : string * string =
+  match r with
+  | Ok a -> ("ok", f a)
+  | Err -> ("err", "-")
+  | Panic -> ("panic", "-")
+  | OutOfFuel -> ("fuel", "-")
+
+(* T lines: Size(), Payload() (through the C13 FixedSliceWriter model AND as plain bits), decode *)
+let typed_line id wclass size payload dclass dstr (msize : BinNums.coq_N) (mpl : BinNums.coq_N list)
+    (mspec : BinNums.coq_N list) ((mdc, mds) : string * string) =
+  if wclass <> "ok" then Printf.printf "MISMATCH %s Payload() class=%s (model: ok)\n" id wclass
+  else if hex_of_n msize <> size then Printf.printf "MISMATCH %s size model=%s\n" id (hex_of_n msize)
+  else if hex_of_bytes mpl <> payload then Printf.printf "MISMATCH %s payload model=%s\n" id (hex_of_bytes mpl)
+  else if hex_of_bytes mspec <> payload then Printf.printf "MISMATCH %s payload(bit-list spec) model=%s\n" id (hex_of_bytes mspec)
+  else if mdc <> dclass || mds <> dstr then Printf.printf "MISMATCH %s decode model=%s %s\n" id mdc mds
+  else Printf.printf "OK %s\n" id
+
+let dec_line id dclass dstr ((mdc, mds) : string * string) =
+  if mdc <> dclass || mds <> dstr then Printf.printf "MISMATCH %s decode model=%s %s\n" id mdc mds
+  else Printf.printf "OK %s\n" id
+
+let pass_string (m : passthrough) : string =
+  let kind = match m.ps_kind with
+    | KRegistered -> "reg"
+    | KCea608 (f1, f2) -> "608:" ^ hex_of_bytes f1 ^ ":" ^ hex_of_bytes f2
+    | KUnregistered u -> "unreg:" ^ hex_of_bytes u
+    | KPicTimingHevc -> "pth" in
+  kind ^ "\t" ^ hex_of_bytes (pass_payload m) ^ "\t" ^ hex_of_n (pass_size m)
+
+let pass_line id dclass rest (r : passthrough res) =
+  let (mc, ms) = match r with
+    | Ok m -> ("ok", pass_string m)
+    | Err -> ("err", "-\t-\t-")
+    | Panic -> ("panic", "-\t-\t-")
+    | OutOfFuel -> ("fuel", "-\t-\t-") in
+  if mc <> dclass || ms <> rest then Printf.printf "MISMATCH %s passthrough model=%s %s\n" id mc ms
+  else Printf.printf "OK %s\n" id
+
+let typed (fields : string list) : bool =
+  match fields with
+  | ["T136"; id; cs; wclass; size; payload; dclass; dstr] ->
+    let cl = parse_clocks cs in
+    let pl = tc_payload cl in
+    typed_line id wclass size payload dclass dstr (tc_size cl) pl (tc_payload_spec cl)
+      (res_string clocks_string (tc_decode pl)); true
+  | ["D136"; id; payload; dclass; dstr] ->
+    dec_line id dclass dstr (res_string clocks_string (tc_decode (bytes_of_hex payload))); true
+  | ["T1"; id; ms; wclass; size; payload; dclass; dstr] ->
+    let m = parse_pt ms in
+    let pl = pt_payload m in
+    typed_line id wclass size payload dclass dstr (pt_size m) pl (pt_payload_spec m)
+      (res_string pt_string (pt_decode m.p_hrd m.p_tolen pl)); true
+  | ["D1"; id; hrd; tolen; payload; dclass; dstr] ->
+    dec_line id dclass dstr (res_string pt_string (pt_decode (parse_hrd hrd) (n_of_hex tolen) (bytes_of_hex payload))); true
+  | ["T137"; id; ms; wclass; size; payload; dclass; dstr] ->
+    let m = parse_mdcv ms in
+    let pl = mdcv_payload m in
+    typed_line id wclass size payload dclass dstr mdcv_size pl pl (res_string mdcv_string (mdcv_decode pl)); true
+  | ["D137"; id; payload; dclass; dstr] ->
+    dec_line id dclass dstr (res_string mdcv_string (mdcv_decode (bytes_of_hex payload))); true
+  | ["T144"; id; ms; wclass; size; payload; dclass; dstr] ->
+    let m = (match L.map n_of_hex (split_on ',' ms) with [a; b] -> { cl_max = a; cl_avg = b } | _ -> failwith "bad cll") in
+    let pl = cll_payload m in
+    let str (c : cll) = hex_of_n c.cl_max ^ "," ^ hex_of_n c.cl_avg in
+    typed_line id wclass size payload dclass dstr cll_size pl pl (res_string str (cll_decode pl)); true
+  | ["D144"; id; payload; dclass; dstr] ->
+    let str (c : cll) = hex_of_n c.cl_max ^ "," ^ hex_of_n c.cl_avg in
+    dec_line id dclass dstr (res_string str (cll_decode (bytes_of_hex payload))); true
+  | ["P4"; id; payload; dclass; k; p; z] ->
+    pass_line id dclass (k ^ "\t" ^ p ^ "\t" ^ z) (decode_registered (bytes_of_hex payload)); true
+  | ["P5"; id; payload; dclass; k; p; z] ->
+    pass_line id dclass (k ^ "\t" ^ p ^ "\t" ^ z) (decode_unregistered (bytes_of_hex payload)); true
+  | ["P1H"; id; par; payload; dclass; k; p; z] ->
+    let par = (match split_on ',' par with
+        | [a; b; c; d; e; f; g] ->
+          { hp_ffi = bool_of a; hp_cpb = bool_of b; hp_subpic = bool_of c; hp_subpic_in_pt = bool_of d;
+            hp_au_len1 = n_of_hex e; hp_dpb_len1 = n_of_hex f; hp_du_len1 = n_of_hex g }
+        | _ -> failwith "bad hevc par") in
+    pass_line id dclass (k ^ "\t" ^ p ^ "\t" ^ z) (decode_pic_timing_hevc par (bytes_of_hex payload)); true
+  | _ -> false
+
 let () =
   iter_lines (fun line ->
-      match split_on '\t' line with
+      let fields = split_on '\t' line in
+      if typed fields then () else
+      match fields with
       | ["L"; id; msgs; wclass; outhex; xclass; xlist] ->
         let ms = parse_list parse_msg msgs in
         let mo = hex_of_bytes (write_sei_messages ms) in
